@@ -160,6 +160,14 @@ pub enum POp {
     /// another miner extends the tip by `n` blocks that commit nothing, each `ts_delta` ms after its
     /// parent; the first one proposes scenario tx `propose` (and nothing else), the others are empty
     Quiet { n: u64, ts_delta: u64, propose: Option<usize>, seed: u64 },
+    /// another miner's branch from the ancestor `back` blocks below the tip, one block longer than
+    /// the part of the main chain it replaces plus the proposal distance: its first block proposes
+    /// and, once the window opens, a later one commits a WITNESS VARIANT of scenario tx t (same
+    /// transaction hash, other witness bytes; the always-success lock does not read them)
+    TwinBranch { t: usize, back: u64, seed: u64 },
+    /// C12 "no lost transactions": scenario tx t, submitted earlier, must be in the pool now if it is not
+    /// committed on the main chain and all its inputs are live on the chain or created by a pooled transaction
+    ExpectPooled { t: usize },
 }
 
 #[derive(Clone, Debug, Serialize, Deserialize)]
@@ -587,6 +595,28 @@ pub fn generate(seed: u64, prop_name: &str) -> PoolScenario {
         sk.push(POp::Foreign { t: a + 3, seed: rp.below(1 << 40) });
         sk.push(POp::Quiesce);
         sk.extend(ops.drain(..).take(40));
+        ops = sk;
+    }
+    // C12 planted shape "the new branch commits the same transaction with other witness bytes": a pooled
+    // child of that transaction keeps a live input and must stay (clean-detach configuration only: a
+    // pool whose policy cannot refuse; one of those runs in four)
+    if clean_detach && Rng::new(seed ^ 0xC12_7719).chance(1, 4) {
+        let mut rp = Rng::new(seed ^ 0xC12_771A);
+        let a = txs.len();
+        txs.push(TxSpec { inputs: vec![InRef::G(rp.idx(g))], outputs: 2, fee: 3_000 + rp.range(0, 2_000), dep: None, salt: rp.below(1 << 30), hdep: None, since: None });
+        txs.push(TxSpec { inputs: vec![InRef::T(a, 0)], outputs: 1, fee: 3_000 + rp.range(0, 2_000), dep: None, salt: rp.below(1 << 30), hdep: None, since: None });
+        let mut sk = vec![POp::Submit { t: a, remote: false }, POp::Quiesce];
+        let mines = cfg.w_close + 2;
+        for _ in 0..mines {
+            sk.push(POp::Mine);
+            sk.push(POp::Quiesce);
+        }
+        sk.push(POp::Submit { t: a + 1, remote: false });
+        sk.push(POp::Quiesce);
+        sk.push(POp::TwinBranch { t: a, back: mines, seed: rp.below(1 << 40) });
+        sk.push(POp::Quiesce);
+        sk.push(POp::ExpectPooled { t: a + 1 });
+        sk.extend(ops.drain(..).take(30));
         ops = sk;
     }
     if timelock_shape {
@@ -1588,6 +1618,15 @@ impl PoolExec {
                 self.il.write_u64(12);
                 self.sibling(*seed);
             }
+            POp::TwinBranch { t, back, seed } => {
+                self.il.write_u64(14);
+                self.twin_branch(*t, *back, *seed);
+            }
+            POp::ExpectPooled { t } => {
+                self.il.write_u64(15);
+                self.quiesce();
+                self.expect_pooled(*t);
+            }
             POp::Quiet { n, ts_delta, propose, seed } => {
                 self.il.write_u64(13);
                 self.quiet(*n, *ts_delta, *propose, *seed);
@@ -1770,6 +1809,73 @@ impl PoolExec {
         }
         self.res.faults.inc("foreign_miner_blocks");
         self.ev(&format!("foreign t={t} -> tip #{}", self.tip_idx));
+    }
+
+    /// see POp::TwinBranch
+    fn twin_branch(&mut self, t: usize, back: u64, seed: u64) {
+        let t = t % self.sc.txs.len().max(1);
+        let Some(tx) = self.tx(t) else { return };
+        let Some(idx) = self.w.txs.iter().position(|m| m.tx.hash() == tx.hash()) else { return };
+        // the other miner's copy of the transaction carries other witness bytes
+        let variant = tx.as_advanced_builder().set_witnesses(vec![Bytes::from(vec![0xEEu8; 9]).pack()]).build();
+        if variant.hash() != tx.hash() || variant.witness_hash() == tx.witness_hash() {
+            return;
+        }
+        self.w.txs[idx].tx = variant;
+        let name = format!("pt{t}");
+        self.w.planted.insert(name.clone(), idx);
+        let chain = self.w.st(self.tip_idx).chain.clone();
+        let tipn = chain.len() as u64 - 1;
+        let base_n = tipn.saturating_sub(back);
+        let wc = self.w.cfg.w_close;
+        let mut parent = chain[base_n as usize];
+        for j in 0..(tipn - base_n + wc + 2) {
+            let plant: Vec<String> = if j == 0 { vec![format!("propose:{name}")] } else if j == wc { vec![format!("commit:{name}")] } else { vec![] };
+            let recipe = crate::scen::plain_recipe((seed << 8) ^ j ^ ((self.w.blocks.len() as u64) << 44), &plant);
+            let b = self.w.build_child(parent, &recipe);
+            let v = self.w.blocks[b].view.clone();
+            self.now = self.now.max(v.timestamp());
+            self.ft.set_faketime(self.now);
+            if let Some(Err(e)) = self.deliver(&v) {
+                self.res.harness_error = Some(format!("model-built twin-branch block rejected: {e}"));
+                return;
+            }
+            if j == wc && v.transactions().iter().skip(1).any(|x| x.hash() == tx.hash() && x.witness_hash() != tx.witness_hash()) {
+                self.res.probes.inc("branch_commits_witness_variant_of_detached_tx");
+                self.res.nontrivial = true;
+            }
+            self.take_queued();
+            parent = b;
+        }
+        self.res.faults.inc("competing_branch");
+        self.ev(&format!("twin_branch t={t} back={back} -> tip #{}", self.tip_idx));
+    }
+
+    /// see POp::ExpectPooled (the pool is at rest)
+    fn expect_pooled(&mut self, t: usize) {
+        let Some(tx) = self.txs.get(t).cloned().flatten() else { return };
+        let d = self.dump();
+        let st = self.w.st(self.tip_idx).clone();
+        if st.txs.contains_key(&tx.hash()) {
+            return;
+        }
+        let pooled: BTreeSet<Byte32> = d.entries.iter().map(|e| e.tx.hash()).collect();
+        if pooled.contains(&tx.hash()) {
+            self.res.probes.inc("expected_pooled_tx_is_pooled");
+            return;
+        }
+        // was it ever admitted?
+        let admitted = self.results.lock().unwrap().iter().any(|(tt, r)| *tt == t && r.is_ok());
+        let inputs_ok = tx.inputs().into_iter().all(|i| {
+            let op = i.previous_output();
+            st.cells.contains_key(&op) || pooled.contains(&op.tx_hash())
+        }) && tx.cell_deps().into_iter().all(|dep| st.cells.contains_key(&dep.out_point()) || pooled.contains(&dep.out_point().tx_hash()));
+        let contested = d.entries.iter().any(|e| e.tx.inputs().into_iter().any(|i| tx.inputs().into_iter().any(|j| j.previous_output() == i.previous_output())));
+        if admitted && inputs_ok && !contested {
+            self.viol("C12", "valid_pooled_tx_lost_in_reorg", format!("tx {} was admitted, is not committed on the main chain, every input and dep of it is live on the chain or created by a pooled transaction, nothing else in the pool spends its inputs, and it is gone from the pool", hex(&tx.hash())));
+        } else {
+            self.res.probes.inc("expected_pooled_tx_not_assertable");
+        }
     }
 
     /// blocks of another miner that commit nothing (see POp::Quiet)
